@@ -159,6 +159,31 @@ func exercise(x *h.X, c *cfgs.Cfg, a tink.AEAD, level int) {
 			x.Fail("roundtrip", "%s: Decrypt(Encrypt(p,ad),ad) != p for plaintext len %d, AD len %d: err=%v got=%s", cfg, m.n, m.ad, err, tk.Hex(got))
 			return
 		}
+		// one-buffer layouts: the caller keeps header (= associated data) and body in ONE buffer, so the AD slice has
+		// spare capacity that IS the ciphertext / plaintext. Round trip must hold there too (an implementation that
+		// builds its MAC / AEAD input with append(ad, ...) authenticates, or encrypts, bytes it has just overwritten).
+		if m.ad > 0 {
+			buf := append(append(make([]byte, 0, len(ad)+len(ct)+16), ad...), ct...)
+			got, err := a.Decrypt(buf[len(ad):], buf[:len(ad)])
+			if err != nil || !bytes.Equal(got, pt) {
+				x.Fail("roundtrip-one-buffer", "%s: Decrypt(buf[h:], buf[:h]) with AD and ciphertext adjacent in one buffer fails for plaintext len %d, AD len %d: err=%v", cfg, m.n, m.ad, err)
+				return
+			}
+			if !bytes.Equal(buf[:len(ad)], ad) || !bytes.Equal(buf[len(ad):], ct) {
+				x.Fail("roundtrip-one-buffer", "%s: Decrypt changed the caller's AD||ciphertext buffer (plaintext len %d, AD len %d)", cfg, m.n, m.ad)
+				return
+			}
+			pbuf := append(append(make([]byte, 0, len(ad)+len(pt)+64), ad...), pt...)
+			ct3, err := a.Encrypt(pbuf[len(ad):], pbuf[:len(ad)])
+			if err != nil {
+				x.Fail("encrypt-error", "%s: Encrypt(buf[h:], buf[:h]) failed: %v", cfg, err)
+				return
+			}
+			if k, why := c.CheckWire(ct3, pt, ad); k != "" {
+				x.Fail(k, "%s: AD and plaintext adjacent in one buffer, plaintext len %d, AD len %d: %s", cfg, m.n, m.ad, why)
+				return
+			}
+		}
 		if m.ad <= 0 {
 			// nil <-> empty AD
 			var other []byte
